@@ -12,7 +12,7 @@ EXTRA2 = {'C01': ' Rounds 6-7: the bundled providing middlewares with non-defaul
 # what the drivers gained after the table below was written (rounds 3-5); appended to the level text
 EXTRA3 = {'C01': ' Round 8: every documented naming style of the extraction middlewares (string, generator, tuple).', 'C02': ' Round 8: the same naming styles, values checked.', 'C03': ' Round 8: stock middleware classes configured differently per level (one instance of a unique type, the outermost), RerouteWSGI endpoints behind tracing and gate middlewares.', 'C04': ' Round 8: render_error functions through 4-tuples and add(), NameError required.', 'C05': ' Round 8: malformed patterns through six further route spellings, redirect-mode end-to-end layer under a mount point.', 'C06': ' Round 8: failing add() attempts between insertions, a static application in front of later routes.', 'C07': ' Round 8: StaticFileRoute shape, absolute-form request targets with a foreign Host header.', 'C08': ' Round 8: a route behind stats + gzip + cache at every position, request counters past 2**32 / 2**64 for the built-in probes.', 'C09': ' Round 8: Content-Length against the bytes sent, errors constructed with mimetype= and served directly.', 'C10': ' Round 8: stock context processors with a defaulted name on offer only further out (56 configurations).', 'C11': ' Round 8: all pairs of registering methods on two Cline applications and the module-level default application.', 'C12': ' Round 8: two gzip kinds (one GzipMiddleware), two static kinds (one search path), the latter also on a cold application.', 'C13': ' Round 8: strict-mode applications whose routes consist of optional bindings only.', 'C14': ' Round 8: static applications behind HTTPCacheMiddleware.', 'C15': ' Round 8: route-level context processor under application-level subclasses, Vary on uncompressed variants.', 'C16': ' Round 8: default cookie names, revalidating clients (304) in the two-cookie histories.', 'C17': ' Round 8: renderers behind the stock context processors, form POST with a field named format.', 'C18': ' Round 8: positional cookie configuration, context defaults that cannot be copied.', 'C19': ' Round 8: stats pages as a browser asks for them.', 'C20': ' Round 8: request lines beyond latin-1 through the development server environ.'}
 
-EXTRA4 = {'C01': ' Round 9: undeclared query parameters and form fields on every provider request.', 'C02': ' Round 9: URL bindings of every arity over three-request histories, consumers that scribble on what they get, request lines through the development server parsing.', 'C03': ' Round 9: stock middlewares between tracing middlewares under six exception types raised by endpoint or render.', 'C04': ' Round 9: cookie middleware named by keyword and positionally.', 'C05': ' Round 9: middlewares providing a binding name in each phase (refused, or the path wins).', 'C06': ' Round 9: prepared error objects shared by routes, tables of three and four routes, meta pages viewed before the requests.', 'C07': ' Round 9: routes preceded by their opposite (leaf / branch) twin.', 'C08': ' Round 9: form POST with a truncated body (found and fixed: contextual 500 page), embedded route against own route, cookie middleware with numeric expiry.', 'C09': ' Round 9: form route behind PostDataMiddleware with a truncated body.', 'C10': ' Round 9: every stock class at two levels under prefixes of one to three segments, repeated slashes inside the prefix.', 'C11': ' Round 9: one StaticFileRoute in two applications, one MakoRenderFactory shared by two applications.', 'C12': ' Round 9: request counter crossing 2**32 in every worker; two concurrent requests whose environs are built by one threaded server object of the vendored development server.', 'C13': ' Round 9: error handlers that answer through their own WSGI wrapper, installed five ways.', 'C14': ' Round 9: search-path spellings (found and fixed: bytes / PathLike / one-shot iterable), named files through the development server parsing.', 'C15': ' Round 9: large forms, a long-lived pass (2**14 + 3 requests, scripted sampling positions).', 'C16': ' Round 9: two clients through one development-server object in all orders of four request shapes; an application built once and served by freshly forked worker processes (all issuer / reader pairs).', 'C17': ' Round 9: renderers behind cache + stats middlewares, empty JSONP callback.', 'C18': ' Round 9: unencodable page title and route text.', 'C19': ' Round 9: one route with numeric and exceptional outcomes, profiled failing requests.', 'C20': ' Round 9: ten failing start-up scripts through the real reloader (found and fixed: non-UTF-8 stderr); nine raw connection shapes through the development server request handler over an in-memory socket.'}
+EXTRA4 = {'C01': ' Round 9: undeclared query parameters and form fields on every provider request.', 'C02': ' Round 9: URL bindings of every arity over three-request histories, consumers that scribble on what they get, request lines through the development server parsing.', 'C03': ' Round 9: stock middlewares between tracing middlewares under six exception types raised by endpoint or render.', 'C04': ' Round 9: cookie middleware named by keyword and positionally.', 'C05': ' Round 9: middlewares providing a binding name in each phase (refused, or the path wins).', 'C06': ' Round 9: prepared error objects shared by routes, tables of three and four routes, meta pages viewed before the requests.', 'C07': ' Round 9: routes preceded by their opposite (leaf / branch) twin.', 'C08': ' Round 9: form POST with a truncated body (found and fixed: contextual 500 page), embedded route against own route, cookie middleware with numeric expiry.', 'C09': ' Round 9: form route behind PostDataMiddleware with a truncated body.', 'C10': ' Round 9: every stock class at two levels under prefixes of one to three segments, repeated slashes inside the prefix.', 'C11': ' Round 9: one StaticFileRoute in two applications, one MakoRenderFactory shared by two applications.', 'C12': ' Round 9: request counter crossing 2**32 in every worker; two concurrent requests whose environs are built by one threaded server object of the vendored development server.', 'C13': ' Round 9: error handlers that answer through their own WSGI wrapper, installed five ways; the scenario application as raw connections through the development server request handler (status, body, HEAD on the wire).', 'C14': ' Round 9: search-path spellings (found and fixed: bytes / PathLike / one-shot iterable), named files through the development server parsing.', 'C15': ' Round 9: large forms, a long-lived pass (2**14 + 3 requests, scripted sampling positions).', 'C16': ' Round 9: two clients through one development-server object in all orders of four request shapes; an application built once and served by freshly forked worker processes (all issuer / reader pairs).', 'C17': ' Round 9: renderers behind cache + stats middlewares, empty JSONP callback.', 'C18': ' Round 9: unencodable page title and route text.', 'C19': ' Round 9: one route with numeric and exceptional outcomes, profiled failing requests.', 'C20': ' Round 9: ten failing start-up scripts through the real reloader (found and fixed: non-UTF-8 stderr); nine raw connection shapes through the development server request handler over an in-memory socket.'}
 
 EXTRA = {
     'C01': '`context` at every chain position, embedded and strict all-optional layers, a plain sibling route after every '
